@@ -398,7 +398,7 @@ func init() {
 	})
 	register(&Check{
 		ID: "C08", Level: "exploration",
-		Rule: "histories of 2-6 calls on ONE instance, each call in {Execute, ExecuteWithContext, FetchMatchingRules} with its own facts and its own ending {normal, Complete, action error on hostile facts, cycle limit (MaxCycle 0-2), cancellation at a chosen boundary event}; every call is judged by the per-run monitors (C01, C02, C03, C06, C10 / fetch exactness) re-armed under fresh-instance assumptions (all non-removed rules active, nothing remembered); non-trivial = distinct (history, position) calls made after an earlier call left state behind (retraction, remembered values, completion)",
+		Rule: "histories of 2-6 calls on ONE instance, each call in {Execute, ExecuteWithContext, FetchMatchingRules} with its own facts and its own ending {normal, Complete, action error on hostile facts, cycle limit (MaxCycle 0-2), cancellation at a chosen boundary event}; every call is judged by the per-run monitors (C01, C02, C03, C06, C10 / fetch exactness) re-armed under fresh-instance assumptions (all non-removed rules active, nothing remembered); non-trivial = distinct (history, position) calls made after an earlier call left state behind (retraction, remembered values, completion); a third of the calls in strict mode, judged by the fault-containment monitor as well; 32 directed histories first: a call on malformed facts (a string / number in a boolean slot) followed by short-circuiting and fully evaluating calls, and members alternating between a value and JSON null",
 		Assume: []string{"comparison is against the reference's set of permitted behaviours, not against a literal second run (equal saliences make two correct runs differ)"},
 		Cases:  func(t string) int { return tierN(1000, 40000)(t) + len(c08DirectedCases) },
 		Run:    runC08Case,
